@@ -141,6 +141,11 @@ def generate(rng, tier, run, seed=0):
             else:
                 bad = [('ZZZ/NM101', 'bad-loop'), ('ZZ901', 'bad-seg'), ('NM1[ZZZZ]03', 'bad-qual'), ('[QQ]02', 'malformed'),
                        ('2000X/2300Y', 'bad-loops')]
+                if rows and rng.random() < 0.5:
+                    # index 0: elements count from 01, components from 1 (an existing segment of the tree, so nothing else is wrong)
+                    rw = rng.choice(rows)
+                    lp = '/'.join([x[0] for x in rw[1][depth + 1:]] + [rw[2]])
+                    bad = [(lp + '00', 'zero-index'), (lp + '%02d-0' % rng.randint(1, max(1, min(rw[5], 9))), 'zero-index')]
                 if op not in ('get_value', 'set_value'):
                     # get_value on a bare segment id raises IndexError by the suite's own tests; not an invalid *path*
                     bad += [('NM1', 'seg-only'), ('REF[1W]', 'seg-qual-only'), ('', 'empty')]
@@ -168,8 +173,14 @@ def generate(rng, tier, run, seed=0):
             if hl is None:
                 continue
             kids = [c for c in hl.children if c.kind == ('segment' if op != 'add_loop' else 'loop') and c.usage != 'N']
+            wrapped = False
             if op == 'add_loop':
+                wr = [c for c in kids if c.children and c.children[0].kind == 'loop' and c.children[0].children
+                      and c.children[0].children[0].kind == 'segment']
                 kids = [c for c in kids if c.children and c.children[0].kind == 'segment' and c.type != 'wrapper']
+                if wr and rng.random() < 0.25:
+                    # the anchor of a loop that is only reachable through a wrapper loop: to be refused without any edit
+                    kids, wrapped = [rng.choice(wr).children[0]], True
             if not kids:
                 continue
             c = rng.choice(kids)
@@ -183,6 +194,8 @@ def generate(rng, tier, run, seed=0):
             o['seg'] = seg_string(node, vals)
             o['pos'] = c.pos
             o['uid'] = node.uid
+            if wrapped:
+                o['wrapped'] = True
             if op == 'delete_segment' and rng.random() < 0.7 and h == 0:
                 # prefer a segment that is really there: a direct child of the root instance
                 direct = [r_ for r_ in rows if len(r_[1]) == depth + 1]
@@ -352,11 +365,8 @@ def execute(case):
                     if ms is None or ele is None:
                         outcome = 'none'
                         if rexc is None and rres is not None:
-                            # ambiguity: first-loop-only vs first match anywhere
-                            anyw = [x for x in M.select(m, p) if x.kind == 'seg'] if not mbad else []
-                            if not anyw:
-                                out.violate('api', 'get-value-phantom|%s' % shape, '%s returned %r, the model finds no such segment' % (tag, rres))
-                                break
+                            out.violate('api', 'get-value-phantom|%s' % shape, '%s returned %r, the model finds no such segment' % (tag, rres))
+                            break
                     else:
                         want = M.seg_value(ms, ele, sub)
                         want = want.replace(':JOIN:', ':') if want is not None else None
@@ -453,6 +463,9 @@ def execute(case):
                 except X12PathError:
                     ok = False
                 ms = model_seg_from_string(seg, o['uid'], mspec)
+                if ok and o.get('wrapped'):
+                    out.violate('api', 'add-loop-through-wrapper', '%s: accepted although the segment opens a loop below a wrapper loop, not a child loop of this node' % tag)
+                    break
                 if ok:
                     if op == 'add_segment':
                         idx = M.insert_index(m, o['pos'])
